@@ -818,7 +818,9 @@ pub fn run(ctx: &Ctx) -> ! {
         "getrandom(2) interposition + ASLR off make hash iteration orders a function of the seed; raw SYS_getrandom users (getrandom 0.2: only the exempt network functions) are not controlled".into(),
         "programs mentioning exempt functions (now, random_*, uuid_v4/v7, get_hostname, get_env_var, network lookups, get_timezone_name) and examples flagged non-deterministic are excluded from the oracle".into(),
     ];
-    let verdict = rep.finish(ctx);
+    let mut verdict = rep.finish(ctx);
+    // a worker that could not run (spawn failure, wall-clock limit, garbled output) is a harness error, not a pass
+    verdict.harness_errors += ev.worker_errors as u32;
     ev.write(ctx, "exploration", verdict.violations, &verdict.known_seen);
     exit_with(&verdict)
 }
